@@ -96,6 +96,7 @@ func runC10(c *Ctx) {
 	L.Rule("R-C10-CMP", "comparison polarities in compact/IterateKV/get/search", 5)
 	L.Rule("R-C10-DOMAIN", "Set/Get reject 0 and MaxUint64 first", 2)
 	L.Rule("R-C10-SEARCHARG", "node.search passes n[:2*numKeys]", 1)
+	runC10b(c)
 
 	grow := mayGrowFuncs(P)
 	c.Group("R-C10-STALE", "may-grow set", func() {
